@@ -1246,3 +1246,7 @@ func vDigestHashIs(k int, h crypto.Hash) bool            { return true }
 func vDigestCanonIs(k int, c dsig.Canonicalizer) bool   { return true }
 
 func vScreenRejections() int { return 0 }
+
+// natively the configuration is compared before/after (vConfigSig); writes are not observable
+func vWatch(sp *SAMLServiceProvider)            {}
+func vWatchedWritesExcept(field string) int   { return 0 }
